@@ -102,6 +102,8 @@ type Exec struct {
 	cegarRounds int
 	pendingExclude []ExcludeCond
 	havoc    bool
+	sched    *scheduler
+	mutexes  map[string]*mutexState
 	env      map[string]*big.Int
 	envMemo  map[int]*Term
 	nTrivial    int
